@@ -192,7 +192,9 @@ def low_bits(t, k, depth=0):
     assert k <= n
     if k == n:
         r = t
-    elif depth > 60 or not z3.is_app(t):
+    elif depth > 60 or not z3.is_app(t) or n != T.width():
+        # only mode-width terms are narrowed; an already narrow term (inside a zero
+        # extension) is a canonical value and is not re-sliced
         r = z3.Extract(k - 1, 0, t)
     else:
         kind = t.decl().kind()
